@@ -162,6 +162,9 @@ func init() {
 	reg("(github.com/cloudwego/gopkg/protocol/thrift.BinaryProtocol).Skip", func(e *Engine, fr *frame, args []V) V {
 		fn := e.lookupFunc("zzgen/internal/zzskip.Skip")
 		if fn == nil {
+			fn = e.lookupFunc("github.com/cloudwego/thriftgo/internal/zzskip.Skip")
+		}
+		if fn == nil {
 			e.unsupported("gopkg BinaryProtocol.Skip: model package zzgen/internal/zzskip not loaded")
 		}
 		return e.callSSA(fr.caller, fr.callSite, fn, []V{args[1], args[2]}, nil)
